@@ -50,6 +50,7 @@ def run(repo, chk):
     rule_f(repo, chk)
     rule_g(repo, chk)
     rule_thread_marker(repo, chk)
+    rule_adoption(repo, chk)
 
 
 def rule_thread_marker(repo, chk):
@@ -96,6 +97,45 @@ def rule_thread_marker(repo, chk):
             chk.ob('h', f.ref, 'the previous marker is restored on every exit, also an exceptional one', p is None and bool(others), loc(f, st.ast),
                    path=pat.path_lines(p, st) if p else None, discr=f'marker-restored:{qual.split(".")[1]}')
     need(n_sites >= 2, f'C05.h: {n_sites} handler-running sites, 2 confirmed by hand')
+
+
+def rule_adoption(repo, chk):
+    """Events enter a root's queue by _fire (C05.f) and by the drain of the private queue of a component that is being registered: the second route links
+    them too when a tracked event is being handled."""
+    chk.rule('C05.i', 'registerChild links the events drained from the new component\'s own queue to the currently handled tracked event (cause, own counter, cause '
+                      'counter) before they join the root queue')
+    f = repo.func(MANAGER, 'Manager.registerChild')
+    chk.touch(f)
+    g = f.cfg()
+    comp = f.params[1]
+    drains = [n for n in g.nodes if n.kind == 'stmt' and any(c.args and src(c.args[0]) == f'{comp}._queue' for _r, c in pat.method_calls(n.ast, 'drainFrom'))]
+    need(drains, 'C05.i: registerChild does not drain the component queue')
+    loops = [n for n in g.nodes if n.kind == 'for' and src(n.ast.iter).startswith(f'{comp}._queue')]
+    chk.ob('i', f.ref, 'the drained events are visited before the drain', bool(loops) and all(Q.reaches(lp, d) for lp in loops for d in drains), loc(f, drains[0].ast),
+           discr='visits-drained')
+    for lp in loops:
+        body = [n for n in g.nodes if n.kind == 'stmt' and ('loop', lp.ast) in n.ctx]
+        cause = [n for n in body if pat.stores_attr(n.ast, 'cause')]
+        own = [n for n in body if pat.stores_attr(n.ast, 'effects') and isinstance(n.ast, ast.Assign) and pat.is_const(n.ast.value, 1)]
+        inc = [n for n in body if isinstance(n.ast, ast.AugAssign) and isinstance(n.ast.target, ast.Attribute) and n.ast.target.attr == 'effects' and isinstance(n.ast.op, ast.Add)
+               and pat.is_const(n.ast.value, 1)]
+        chk.ob('i', f.ref, 'each drained event gets the cause, its own counter and the cause counter incremented', bool(cause and own and inc), loc(f, lp.ast),
+               detail=f'cause stores {len(cause)}, own-counter stores {len(own)}, increments {len(inc)}', discr='link-triple')
+        cv = {src(n.ast.value) for n in cause}
+        handled = {src(n.ast.targets[0]) for n in g.nodes if n.kind == 'stmt' and isinstance(n.ast, ast.Assign) and isinstance(n.ast.targets[0], ast.Name)
+                   and src(n.ast.value).endswith('._currently_handling')} | {x for x in cv if x.endswith('._currently_handling')}
+        chk.ob('i', f.ref, 'the cause is the currently handled event, and the counter incremented is its counter', bool(cv) and cv <= handled and
+               all(src(n.ast.target.value) in cv for n in inc), loc(f, (cause or [lp])[0].ast), discr='cause-value')
+        # under "a tracked event is being handled (by this thread)" the drain is reached only through the loop
+        tracked = [e for n in g.nodes if n.kind == 'test' and "'cause'" in src(n.ast) for e in n.succ if e.kind == 'T']
+        ok = bool(tracked)
+        path = None
+        for d in drains:
+            q = pat.guarded_by(g, lp, lambda e: e in tracked)
+            if q is not None:
+                ok, path = False, q
+        chk.ob('i', f.ref, 'linking happens only when the currently handled event is itself tracked', ok, loc(f, lp.ast), path=pat.path_lines(path) if path else None,
+               discr='tracked-guard')
 
 
 def _accounting(n):
@@ -159,6 +199,21 @@ def rule_b(chk, f):
             ok = bool(rest) and p is None
         chk.ob('b', f.ref, 'the stepper restores the previously published event on every exit (also exceptional)', ok, loc(f, f.node),
                discr='restore')
+
+
+    if f.name == '_dispatcher':
+        # dispatching may nest (a handler calls flush() / tick()): when the inner dispatch ends, the outer handler's event is the handled one again
+        saved = [n for n in g.nodes if n.kind == 'stmt' and isinstance(n.ast, ast.Assign) and src(n.ast.value) == 'self._currently_handling' and isinstance(n.ast.targets[0], ast.Name)
+                 and all(not Q.reaches(p_, n) for p_ in pubs)]
+        vars_ = {src(n.ast.targets[0]) for n in saved}
+        rest = [n for n in others if src(n.ast.value) in vars_]
+        wrong = [n for n in others if n not in rest]
+        p = None
+        for p_ in pubs:
+            p = p or Q.escapes(g, [p_], lambda n: n in rest, exits=('exit',), exc=())
+        chk.ob('b', f.ref, 'when the handlers have run the dispatcher re-publishes what was handled before it began (the enclosing handler\'s event, or nothing), '
+                           'on every normal path', bool(rest) and p is None and not wrong, loc(f, (wrong or rest or [g.entry])[0].ast if (wrong or rest) else f.node),
+               path=pat.path_lines(p) if p else None, discr='restore')
 
 
 def _key(s):
